@@ -254,6 +254,11 @@ def make_record(ex, ev, node, rt: TRec):
 
 def builtin_call(ex, ev: Eval, node, fname):
     a = node.args
+    if fname in ("round", "pyround") and len(a) == 1:
+        x = coerce_to(ev.expr(a[0]), REAL)
+        r = ufun("pyround", [z3.RealSort()], z3.IntSort())(x.z)  # round-half-even: only |x - r| <= 1/2 is used
+        ev.st.pc.append(z3.And(2 * (x.z - z3.ToReal(r)) <= 1, 2 * (z3.ToReal(r) - x.z) <= 1))
+        return V(INT, r)
     if fname == "inf" and not a:
         from .expr import INF
         return V(REAL, INF)
